@@ -45,7 +45,7 @@ def restore_rule(ctx, body, R):
             continue
         for f in FIELDS:
             inst = 'error-exit[%s]:%s' % (desc.split(' at ')[0] + '@' + exit_anchor(body, bb), f)
-            if st[f] == DIRTY:
+            if st[f] == DIRTY and not ra.ok_only(st, f, bb):
                 why = [t for b_, t in ra.events if f in t]
                 ctx.fail(R, body, inst, 'field `%s` may be left modified at error exit %s (entry bb0 -> exit bb%d)%s' % (
                     f, desc, bb, ('; ' + why[0]) if why else ''), desc.split(' at ')[-1])
